@@ -100,4 +100,37 @@ example : ∃ d, (run (init (exNet.runs 1 (by decide) (by decide)).cfg exTbl (ex
 
 end Model
 
+/-! ## Validity of the executable model driven through the participant API -/
+section ParticipantAPI
+open F3.Instance F3.Bridge
+
+/-- **Validity, end to end for the model of the code, at the participant API** (hypotheses as in
+`C01.agreement_model_participant`: honest executions are sequences of `ReceiveMessage` / `ReceiveAlarm` calls with the
+pre-start queue drained through `ReceiveMany` in an arbitrary order): a decision reported by an honest participant
+is a non-empty prefix of the input chain of some honest committee member. -/
+theorem validity_model_participant {t : Table} {F : Finset Pid} {W : Instance.Votes} (N : NetworkP t F W)
+    (p : Pid) (hp : p ∈ (ids t).toFinset) (hpF : p ∉ F) (d : Just)
+    (hd : (prun (N.runs p hp hpF).order (pinit (N.runs p hp hpF).cfg t (N.runs p hp hpF).input)
+      (N.runs p hp hpF).ops).1.inst.termination = some d) :
+    d.value ≠ [] ∧ ∃ h, ∃ hh : h ∈ (ids t).toFinset, ∃ hF : h ∉ F, d.value <+: (N.runs h hh hF).input :=
+  model_validityP N p hp hpF d hd
+
+/-- ... and starts at the common base when all honest inputs do. -/
+theorem validity_model_base_participant {t : Table} {F : Finset Pid} {W : Instance.Votes} (N : NetworkP t F W) (b : Nat)
+    (hbase : ∀ h (hh : h ∈ (ids t).toFinset) (hF : h ∉ F), (N.runs h hh hF).input.head? = some b)
+    (p : Pid) (hp : p ∈ (ids t).toFinset) (hpF : p ∉ F) (d : Just)
+    (hd : (prun (N.runs p hp hpF).order (pinit (N.runs p hp hpF).cfg t (N.runs p hp hpF).input)
+      (N.runs p hp hpF).ops).1.inst.termination = some d) :
+    d.value.head? = some b :=
+  model_validity_baseP N b hbase p hp hpF d hd
+
+/-- Non-vacuity: in the participant-level example network of `F3.Bridge` (four messages queued before the instance
+begins, one of them a late-binding reject) honest member 1 decides `[7, 8]`, a prefix of its input. -/
+example : ∃ d, (prun (exNetP.runs 1 (by decide) (by decide)).order
+      (pinit (exNetP.runs 1 (by decide) (by decide)).cfg exTbl (exNetP.runs 1 (by decide) (by decide)).input)
+      (exNetP.runs 1 (by decide) (by decide)).ops).1.inst.termination = some d ∧ d.value = [7, 8] :=
+  ex_networkP_decides.2.2
+
+end ParticipantAPI
+
 end F3.Props.C02
